@@ -222,6 +222,10 @@ def rule_innermost(ck):
 
 
 def run(ck):
+    # "identical names in different frames or recursion depths show that activation's own values": the registers and the
+    # frame base of the selected frame come from restore_registers_at_frame / get_cfa (shared with C05)
+    from rules import C05
+    C05.rule_frame_steps(ck)
     rule_innermost(ck)
     regs.rule_numbering(ck)
     rule_scope(ck)
